@@ -495,6 +495,8 @@ class Interp:
 
     def s_For(self, node, env):
         it = self.eval(node.iter, env)
+        if hasattr(it, "pyvc_for"):
+            return it.pyvc_for(self, node, env)
         if isinstance(it, A.SIntList):
             lst = it
             it = SSeq(lst.n, lambda k: lst.at(k), f"items of {lst.name}")
@@ -637,7 +639,13 @@ class Interp:
         return tuple(self._elts(node.elts, env))
 
     def e_List(self, node, env):
-        return list(self._elts(node.elts, env))
+        items = list(self._elts(node.elts, env))
+        hook = getattr(self, "display_hook", None)
+        if hook is not None:
+            r = hook(self, "list", items, env)
+            if r is not None:
+                return r
+        return items
 
     def e_Set(self, node, env):
         return set(self._elts(node.elts, env))
@@ -658,6 +666,11 @@ class Interp:
                 d.update(self.as_mapping(self.eval(v, env)))
             else:
                 d[self.hashable(self.eval(k, env))] = self.eval(v, env)
+        hook = getattr(self, "display_hook", None)
+        if hook is not None:
+            r = hook(self, "dict", d, env)
+            if r is not None:
+                return r
         return d
 
     def hashable(self, k):
@@ -666,6 +679,8 @@ class Interp:
     def as_mapping(self, v):
         if isinstance(v, dict):
             return v
+        if hasattr(v, "pyvc_as_mapping"):
+            return v.pyvc_as_mapping(self)
         if isinstance(v, StarPack):
             raise Unsupported("** of an opaque argument pack inside a dict display")
         raise Unsupported(f"** of {type(v).__name__}")
@@ -728,6 +743,10 @@ class Interp:
         return self.binop(_BINOPS[type(node.op)], a, b)
 
     def binop(self, op, a, b):
+        if hasattr(a, "pyvc_binop"):
+            return a.pyvc_binop(self, op, b, False)
+        if hasattr(b, "pyvc_binop"):
+            return b.pyvc_binop(self, op, a, True)
         if isinstance(a, bool):
             a = int(a)
         if isinstance(b, bool):
@@ -1764,6 +1783,8 @@ class Interp:
 
         @reg("list")
         def _list(it, a, k):
+            if a and hasattr(a[0], "pyvc_to_list"):
+                return a[0].pyvc_to_list(it)
             return list(it.iterate(a[0])) if a else []
 
         @reg("tuple")
@@ -1949,6 +1970,9 @@ class Interp:
                 return isinstance(obj, set)
         if isinstance(cls, ExcClass):
             return isinstance(obj, ExcValue) and exc_isinstance(obj, cls.name)
+        if isinstance(cls, (LocalObj, ObjRef, PropertyValue, FuncValue, int, float, str, list, dict)) and not isinstance(cls, bool):
+            # isinstance(x, <an instance>): python raises TypeError
+            raise PyRaise(ExcValue("TypeError", ("isinstance() arg 2 must be a type, a tuple of types, or a union",), ("Exception",)))
         raise Unsupported(f"isinstance against {cls!r}")
 
 
